@@ -342,7 +342,7 @@ def bridge_check(ctx, seconds):
     env["FAKE_SF_LOG"] = logp
     env["FAKE_SF_SEED"] = str(ctx.seed + 3)
     p = subprocess.Popen([binary, "determine-stockfish-elo", "--depth", "1", "--starting-elo", "1000"], stdin=subprocess.DEVNULL,
-                         stdout=subprocess.PIPE, stderr=subprocess.STDOUT, env=env)
+                         stdout=subprocess.PIPE, stderr=subprocess.STDOUT, env=env, start_new_session=True)
     buf = b""
     t0 = time.time()
     while time.time() - t0 < seconds:
@@ -357,9 +357,12 @@ def bridge_check(ctx, seconds):
         elif p.poll() is not None:
             break
     crashed = p.poll() is not None
-    p.kill()
+    import signal
+    try:
+        os.killpg(p.pid, signal.SIGKILL)      # the program and the stand-in it started (own session)
+    except ProcessLookupError:
+        pass
     p.wait()
-    subprocess.run(["pkill", "-f", "harness fake-stockfish"], stdout=subprocess.DEVNULL, stderr=subprocess.DEVNULL)
     text = buf.decode("utf-8", "replace")
     if "Stockfish not found" in text:
         raise ToolError("the stand-in external engine was not found on PATH")
